@@ -51,7 +51,16 @@ def solve(path, timeout_s, solver='z3', model=False):
     if first in ('sat', 'unsat'): return first, out, r['wall']
     return ('timeout' if (r['timeout'] or 'timeout' in out) else 'unknown'), out[:300], r['wall']
 
-def discharge(dirs_and_manifests, budget_s, cvc5_fraction=0.05, seed=SEED):
+def solve_batch(paths, timeout_s):
+    """several queries in one z3 process, separated by (reset); returns list of verdicts or None if the output is not clean"""
+    txt = []
+    for p in paths: txt.append(open(p).read()); txt.append('(reset)\n')
+    r = run(['z3', '-in', '-t:%d' % (timeout_s * 1000)], check=False, timeout=timeout_s * len(paths) + 30, input=''.join(txt))
+    lines = [l.strip() for l in r['out'].split('\n') if l.strip()]
+    if r['timeout'] or len(lines) != len(paths) or any(l not in ('sat', 'unsat', 'unknown') for l in lines): return None, r['wall']
+    return lines, r['wall']
+
+def discharge(dirs_and_manifests, budget_s, cvc5_fraction=0.05, seed=SEED, batch=40):
     """solve every query; returns list of dict(file, label, case, verdict, wall, model?)"""
     qs = []
     for d, man in dirs_and_manifests:
@@ -65,7 +74,19 @@ def discharge(dirs_and_manifests, budget_s, cvc5_fraction=0.05, seed=SEED):
             v2, out2, _ = solve(q['path'], budget_s, model=True); q['model'] = out2
         elif v != 'unsat': q['detail'] = out
         return q
-    res = pmap(one, qs)
+    # small queries are batched per z3 process (start-up dominates); anything not cleanly answered is re-run alone
+    small = [q for q in qs if q.get('nodes', 0) <= 4000]; big = [q for q in qs if q.get('nodes', 0) > 4000]
+    chunks = [small[i:i + batch] for i in range(0, len(small), batch)]
+    def onechunk(ch):
+        v, wall = solve_batch([q['path'] for q in ch], budget_s)
+        out = []
+        for i, q in enumerate(ch):
+            if v is None or v[i] not in ('unsat',) and not (v[i] == 'sat' and q['kind'] == 'witness'):
+                out.append(one(q))            # sat / unknown / unclean batch: individual run (with model)
+            else:
+                q['verdict'] = v[i]; q['wall'] = wall / len(ch); out.append(q)
+        return out
+    res = [q for ch in pmap(onechunk, chunks) for q in ch] + pmap(one, big)
     # cross-check a sample on cvc5 (QF_NRA / QF_UF): a disagreement is an error of the check
     sample = [q for q in res if q['verdict'] in ('sat', 'unsat') and rng.random() < cvc5_fraction][:200]
     def two(q):
